@@ -233,7 +233,7 @@ theorem c19_counterexample_alias_keys :
 
 /-- **What the protocol theorems rest on**: if the locked section of `apply_source` were torn into
 "check under the lock — unlock — write — re-lock and commit" (`splitCheck`/`splitWrite`/
-`splitCommit`; NOT the code's behaviour, and not `versioned`), two honest writers released on the
+`splitCommit`; NOT the code's behaviour, and not `covered`), two honest writers released on the
 same version both succeed (1 → 2 and 1 → 3), and the file ends with the content of the EARLIER
 success while the tracked document holds the later one.  Sequentially the torn variant is
 indistinguishable from the atomic one, so only real-thread contention (the barrier run of the
